@@ -23,6 +23,13 @@ def step (s : S) (line : String) : S × String :=
       -- SIGKILL: the endpoint has not noticed; the upstream is down
       let (c, _) := attempt false (outage false s.cache)
       ({ cache := c }, "fails")
+    else if what == "silent-origin" then
+      -- one tunnel to a healthy origin is open on the shared connection; a request to a silent origin times out
+      let (c1, o1) := attempt true s.cache
+      let sh : Shared := { cache := c1, tunnels := if o1 == Outcome.ok then 1 else 0 }
+      let (sh2, o2) := silentOrigin false sh
+      let (c3, o3) := attempt true sh2.cache
+      ({ cache := c3 }, s!"slow-request={showO o2} healthy-tunnel={sh.tunnels}{sh2.tunnels} next={showO o3}")
     else if what.startsWith "after-orderly-close" then
       -- CONNECTION_CLOSE reached the connector: the endpoint knows
       let (c, os) := attempts attempt true 2 (outage true s.cache)
